@@ -4,6 +4,8 @@ VM = "fidget-core/src/vm/mod.rs"
 SSA = "fidget-core/src/compiler/ssa_tape.rs"
 CTXOP = "fidget-core/src/context/op.rs"
 
+ALLOC = "fidget-core/src/compiler/alloc.rs"
+
 MUTANTS = [
     ("C01", VM, "v[out] = imm - v[arg];", "v[out] = v[arg] - imm;", "C01.R3|point|SubImmReg", "point SubImmReg operands swapped"),
     ("C01", VM, ("nth", 0, "v[out][i] = v[lhs][i].atan2(v[rhs][i]);"), "v[out][i] = v[rhs][i].atan2(v[lhs][i]);", "AtanRegReg", "bulk atan2 operands swapped (first bulk loop)"),
@@ -13,4 +15,13 @@ MUTANTS = [
     ("C01", SSA, "UnaryOpcode::Floor => SsaOp::FloorReg,", "UnaryOpcode::Floor => SsaOp::CeilReg,", "C01.R1|unary|Floor", "Floor lowered to Ceil"),
     ("C01", CTXOP, "BinaryOpcode::Mod => a.rem_euclid(b),", "BinaryOpcode::Mod => a % b,", "C01.R3|ref|BinaryOpcode|Mod", "reference Mod uses %"),
     ("C01", SSA, "BinaryOpcode::Min\n                            | BinaryOpcode::Max\n                            | BinaryOpcode::And\n                            | BinaryOpcode::Or\n                    ) {\n                        choice_count += 1;", "BinaryOpcode::Min\n                            | BinaryOpcode::Max\n                            | BinaryOpcode::And\n                    ) {\n                        choice_count += 1;", "C01.R1|choice_count", "Or not counted as a choice"),
+    ("C01", ALLOC, "self.out.push(op(r_x, r_a, r_z));", "self.out.push(op(r_x, r_z, r_a));", "C01.R4|op_reg_reg|Memory,Register", "alloc (mem,reg) operands swapped"),
+    ("C01", ALLOC, "self.out.push(op(r_x, r_x, r_a));\n                self.rebind_register(lhs, r_x);\n                self.bind_register(rhs, r_a);\n            }\n            (Allocation::Memory(m_y), Allocation::Unassigned)", "self.out.push(op(r_x, r_x, r_a));\n                self.bind_register(rhs, r_a);\n            }\n            (Allocation::Memory(m_y), Allocation::Unassigned)", "C01.R4|op_reg_reg|Unassigned,Memory", "alloc (U,mem) forgets to rebind lhs"),
+    ("C01", ALLOC, "self.out.push(op(r_x, r_y, r_a));\n                self.release_reg(r_x);\n                self.bind_register(rhs, r_a);", "self.out.push(op(r_x, r_y, r_a));\n                self.release_reg(r_x);\n                self.bind_register(lhs, r_a);", "C01.R4|op_reg_reg|Register,Memory", "alloc (reg,mem) binds the wrong operand"),
+    ("C01", ALLOC, "SsaOp::SinReg(out, arg) => (out, arg, RegOp::SinReg),", "SsaOp::SinReg(out, arg) => (out, arg, RegOp::CosReg),", "C01.R2|op_reg|SinReg", "alloc lowers Sin to Cos"),
+    ("C01", ALLOC, "(out, arg, imm, RegOp::SubImmReg)", "(out, arg, imm, RegOp::SubRegImm)", "C01.R2|op_reg_imm|SubImmReg", "alloc lowers SubImmReg to SubRegImm"),
+    ("C01", ALLOC, "        self.spare_registers.push(reg);\n", "", "C01.R5|release_reg|call|push", "release_reg forgets to return the register"),
+    ("C01", ALLOC, "        let prev_node = self.registers[reg as usize];\n        self.allocations[prev_node as usize] = UNASSIGNED;\n", "", "C01.R5|rebind_register", "rebind_register leaves the old binding"),
+    ("C01", ALLOC, "self.out.push(RegOp::Load(reg, mem));", "self.out.push(RegOp::Load(reg, prev_node));", "C01.R5|get_register|load", "eviction loads from the wrong slot"),
+    ("C01", ALLOC, "            Allocation::Memory(m_y) => {\n                let r_a = self.get_register();\n                self.push_store(r_a, m_y);\n                self.out.push(RegOp::Output(r_a, i));", "            Allocation::Memory(m_y) => {\n                let r_a = self.get_register();\n                self.release_mem(m_y);\n                self.out.push(RegOp::Output(r_a, i));", "C01.R4|op_output|Memory", "op_output forgets the store"),
 ]
